@@ -158,6 +158,10 @@ def _one(pid: str, pname: str, c: Ctx, ob: Dict[str, Any], replay: Optional[Repl
             ok, desc = replay(ob["name"], md, info)
         except Exception:
             ok, desc = False, "replayer crashed: " + traceback.format_exc()[-800:]
+            # the symbolic run may have left symbolic objects in library-global state (caches): decide in a clean process
+            sub = _replay_in_subprocess(pid, {"harness": pname, "obligation": ob["name"], "model": md, "info": _plain(info)})
+            if sub is not None:
+                ok, desc = sub
         if not ok:
             recs.append({"type": "obligation", "name": name, "status": INCONCLUSIVE, "secs": total, "queries": queries,
                          "detail": f"counterexample {md} does not reproduce on the real code ({desc}); encoding suspect: {_short(ob['claim'])}"})
@@ -172,6 +176,41 @@ def _one(pid: str, pname: str, c: Ctx, ob: Dict[str, Any], replay: Optional[Repl
         excluded.append(z3.Not(hit[1]))
         known = [k for k in known if k[0] != hit[0]]
         total, queries = 0.0, 0
+
+
+_SUB_N = [0]
+
+
+def _replay_in_subprocess(pid: str, payload: Dict[str, Any]) -> Optional[Tuple[bool, str]]:
+    """bin/vcheck <pid> --replay <file> in a fresh interpreter; None when that run is itself unusable"""
+    import json
+    import os
+    import subprocess
+    import sys
+    from ..report import REPLAY_DIR
+    _SUB_N[0] += 1
+    if _SUB_N[0] > 8:  # a handful per task is enough to turn a crash into a verdict
+        return None
+    os.makedirs(REPLAY_DIR, exist_ok=True)
+    path = os.path.join(REPLAY_DIR, f".sub_{pid}_{os.getpid()}_{_SUB_N[0]}.json")
+    try:
+        with open(path, "w") as f:
+            json.dump({"replay": payload}, f)
+        p = subprocess.run([sys.executable, "-m", "vf.cli", pid, "--replay", path], capture_output=True, text=True, timeout=900,
+                           cwd=os.path.dirname(os.path.dirname(os.path.dirname(os.path.abspath(__file__)))))
+        for line in p.stdout.splitlines():
+            if line.startswith("REPRODUCED "):
+                return True, line[len("REPRODUCED "):] + " (replayed in a clean process)"
+            if line.startswith("NOT-REPRODUCED "):
+                return False, line[len("NOT-REPRODUCED "):] + " (replayed in a clean process)"
+        return None
+    except Exception:
+        return None
+    finally:
+        try:
+            os.remove(path)
+        except OSError:
+            pass
 
 
 def _short(e: Any, n: int = 400) -> str:
